@@ -117,7 +117,7 @@ func init() {
 	})
 	register(&Check{
 		ID: "C03", Level: "exploration",
-		Rule:        "same histories as C01 biased to delays and cancels of waiting jobs; restated liveness: (1) at every logical quiescence no job waits although the model says it must have started (free slot, delay expired, unchanged definition), (2) after the drain (all gates released, all delays expired) every accepted job is completed or canceled, (3) every 8th case: a runner restarted on a prepared store (jobs in every persisted state) starts the next job of every pipeline, (4) every 32nd case: a burst of 33..260 jobs waiting behind the running ones (some waiters canceled), all of which must run in the order of acceptance; a situation is (admission class, delayed?) at drain",
+		Rule:        "same histories as C01 biased to delays and cancels of waiting jobs; restated liveness: (1) at every logical quiescence no job waits although the model says it must have started (free slot, delay expired, unchanged definition), (2) after the drain (all gates released, all delays expired) every accepted job is completed or canceled, (3) every 8th case: a runner restarted on a prepared store (jobs in every persisted state) starts the next job of every pipeline, (4) every 32nd case: a burst of 33..260 jobs waiting behind the running ones (some waiters canceled), all of which must run in the order of acceptance; a situation is (admission class, delayed?) at drain. Every 16th case: an event that frees a slot (last task of a running job ends / fails, the running job is canceled) is injected INSIDE the accept path of a schedule request for the same pipeline (at the instant the job id is generated); order-agnostic oracles: no job waiting next to a free slot at quiescence, limits respected, every accepted job terminal after the drain",
 		Assumptions: []string{seqAssumption, "unbounded 'eventually' is restated as 'nothing enabled is left undone at logical quiescence' (DESIGN.md section 6)"},
 		Cases:       func(t string) int { return tierN(t, 1600, 40000) },
 		RunCase: func(c *CaseCtx) *CaseResult {
@@ -131,6 +131,10 @@ func init() {
 			if c.Idx%32 == 9 {
 				// a burst: far more jobs wait than in any of the histories (33..260), then all of them get their turn
 				return simpleCase(c, drv.RunLongQueueCase(int64(c.Idx/32)), 100)
+			}
+			if c.Idx%16 == 13 {
+				// the event that frees a slot (task end, failure, cancel) arrives inside the accept path of a request
+				return simpleCase(c, drv.RunScheduleRacesCompletionCase(int64(c.Idx/16)), 3)
 			}
 			if c.Idx%8 == 2 {
 				// jobs accepted after a restart: the store may hold jobs in any state, also states that exist only for an
